@@ -105,7 +105,8 @@ class StringContainsToConcat:
             return []
         var = node[1]
         # the names of the fresh variables are derived from ``var``
-        if not var.is_leaf() or is_const(var) or is_piped_symbol(var):
+        if not var.is_leaf() or is_const(var) or is_piped_symbol(
+                var) or var.data[:1] == ';':
             return []
         k1 = f'{var}_prefix'
         k2 = f'{var}_suffix'
